@@ -67,7 +67,7 @@ static const char *const code_name[] = { "ctor_def", "ctor_n", "ctor_nv", "ctor_
 
 struct Op { int code; int d; int s; int na; int a[4]; };
 
-enum { MAXSTEP = 10, MAXV = 12 };
+enum { MAXSTEP = 10, MAXV = 32 };
 struct Cont { int p; int sz; int cap; int inl; int inlb; int v[MAXV]; int mf[MAXV]; };
 struct StepRec { int skipped; int ret; int ret2; int nv; int vals[MAXV]; Cont c[2]; };
 struct Digest { int n; StepRec s[MAXSTEP]; };
